@@ -11,7 +11,7 @@ R-STREAM-CAP  (a) a declared message / frame length taken from the stream (resul
               and the exceeding arm returns 0 (which makes coap_ws_read() disconnect).
 """
 import collections
-from core.prog import strip, walk, ap, key, short, const_int, callee_field
+from core.prog import strip, walk, ap, key, short, const_int, callee_field, succs
 from core.psts import Env, solve, relevance, apply_generic, INF
 
 COUNTERS = {'partial_read', 'partial_write', 'hdr_ofs', 'http_ofs', 'data_ofs'}
@@ -1094,3 +1094,100 @@ def run_buffer_param(run, P):
             run.instance('R-STREAM-CAP', '%s: the size read into the caller\'s buffer %s is bounded by %s on every path of the call' % (name, s_[3], s_[4]))
         solve(f, Env(), on_event, None, keys, R, key_fn=lambda e: e.ts.get('le'), on_branch=on_branch)
     run.require_count(n >= 1 or run.fixture_mode or run.cfg != 'base', 'R-STREAM-CAP(caller\'s buffer): no read slot call into a (buffer, capacity) parameter pair found (expected coap_ws_read)')
+
+
+def run_buffered_examined(run, P, units=('coap_ws.c', 'coap_net.c', 'coap_tcp.c')):
+    """R-STREAM-ADV (buffered bytes are examined): a reader that appends at `B + C` (C a progress counter) and that, before issuing the read,
+    branches on `C == 0` with the non-zero arm going on to the read, states a belief: bytes that nobody has looked at yet may already be
+    buffered when the read is issued (the WebSocket frame reader is entered with what the HTTP handshake phase read beyond the header).
+    After the read, a return on a path that knows the read transferred nothing (result <= 0 with 0 possible) must lie behind a condition that
+    examined C since the read, or know C == 0: otherwise a complete unit sitting in the buffer is only noticed when the NEXT bytes arrive -
+    delivery then depends on where the stream was cut.  A return for a negative result (error) carries no obligation."""
+    from core.prog import callee_field, dominators
+    run.rule('R-STREAM-ADV')
+    n = 0
+    for f in sorted(P.lib_funcs(), key=lambda f: f['name']):
+        if f['unit'] not in units:
+            continue
+        name = f['name']
+        reads = []
+        for b, ev in P.events(f):
+            t = ev['e']
+            call, res = None, None
+            if t.get('k') == 'asg' and t.get('op') == '=' and isinstance(strip(t['r']), dict) and strip(t['r']).get('k') == 'call':
+                call, res = strip(t['r']), ap(t['l'])
+            if call is None or callee_field(call) not in READ_FIELDS or not res or len(call.get('a') or ()) < 3:
+                continue
+            cs = [ap(x) for x in walk(call['a'][-2]) if isinstance(x, dict) and x.get('k') == 'mem' and x.get('f') in COUNTERS and ap(x)]
+            if cs:
+                reads.append((ev, b['id'], res, cs[0]))
+        if not reads:
+            continue
+        B = f['B']
+
+        def reach(frm):
+            seen, work = set(), list(succs(B[frm]))
+            while work:
+                i = work.pop()
+                if i in seen:
+                    continue
+                seen.add(i)
+                if not B[i].get('noret'):
+                    work.extend(succs(B[i]))
+            return seen
+        for rev, rb, res, C in reads:
+            # belief: an equality test of C against 0 from which the read is reachable
+            belief = False
+            for b in f['blocks']:
+                c = strip((b.get('term') or {}).get('cond'))
+                if not isinstance(c, dict) or len(succs(b)) < 2:
+                    continue
+                z = None
+                if c.get('k') == 'bin' and c.get('op') in ('==', '!=') and ((ap(c['l']) == C and const_int(c['r']) == 0) or (ap(c['r']) == C and const_int(c['l']) == 0)):
+                    z = True
+                elif c.get('k') == 'un' and c.get('op') == '!' and ap(c['e']) == C:
+                    z = True
+                elif ap(c) == C:
+                    z = True
+                if z and (rb in reach(b['id'])) and b['id'] != rb:
+                    belief = True
+            if not belief:
+                run.stats['stream_reads_without_buffered_belief'] += 1
+                continue
+            n += 1
+            run.instance('R-STREAM-ADV', '%s: bytes buffered at %s are examined after an empty read' % (name, C.split('->')[-1]))
+            rep = set()
+
+            def on_event(ev, env, ctx):
+                if ev is rev:
+                    e = apply_generic(ev, env, None).copy()
+                    e.ts['rd'] = 1
+                    e.ts.pop('seen', None)
+                    return [e]
+                t = ev['e']
+                if env.ts.get('rd') and not env.ts.get('seen') and t.get('k') == 'ret':
+                    lo, hi, ex = env.intf(res)
+                    zero_only = hi == 0 and lo <= 0 and 0 not in ex
+                    c0 = env.intf(C)
+                    known0 = c0[0] == 0 and c0[1] == 0
+                    if zero_only:
+                        ok = known0
+                        run.oblige('R-STREAM-ADV', ok, '%s:%s:buffered-examined' % (name, C.split('->')[-1]))
+                        if not ok and ev['loc'] not in rep:
+                            rep.add(ev['loc'])
+                            run.violation('R-STREAM-ADV', name, ev['loc'], 'buffered-not-examined:%s' % C.split('->')[-1],
+                                          'the function returns because the read transferred nothing (result <= 0, 0 possible) without having looked at %s since the read, although it '
+                                          'was entered believing bytes may already be buffered there (it tests %s == 0 before the read): a complete unit in the buffer stays '
+                                          'undelivered until more bytes arrive' % (C.split('->')[-1], C.split('->')[-1]), ctx.path())
+                return None
+
+            def on_branch(b, s, env, ctx):
+                if env.ts.get('rd') and not env.ts.get('seen'):
+                    c = (b.get('term') or {}).get('cond')
+                    if c is not None and any(isinstance(x, dict) and x.get('k') == 'mem' and ap(x) == C for x in walk(c)):
+                        e = env.copy()
+                        e.ts['seen'] = 1
+                        return e
+                return env
+            solve(f, Env(), on_event, None, None, None, key_fn=lambda e: (e.ts.get('rd'), e.ts.get('seen'), e.intf(res)[:2], e.intf(C)[:2]), on_branch=on_branch, max_envs=512)
+    run.require_count(n >= 1 or run.fixture_mode or run.cfg != 'base', 'R-STREAM-ADV (buffered bytes are examined): no reader with a buffered-bytes belief found (expected coap_ws_read)')
